@@ -18,20 +18,20 @@ TRUSTED = ["clang 14 parser/CFG builder", "echse-facts extractor", "python rule 
 
 def run(prog, rep, tier, snap):
     rep.rule("R09.1", "bounded occurrence-cache writes in the fillers (must-fact index < capacity at every store)", 10)
-    n = fillers.r09_1(prog, rep)
+    n = rep.call(fillers.r09_1, prog, rep)
     if n != 7:
         rep.broken_("rule=R09.1 expected 7 fillers, found %d" % n)
     rep.rule("R09.2", "callers of the fillers provide room for nti results plus the group stamps", 9)
-    fillers.r09_2(prog, rep)
+    rep.call(fillers.r09_2, prog, rep)
     rep.rule("R09.3", "no fruitless cycle without fuel in the expansion, iterator and line-chopping loops", 60)
-    fillers.r09_3(prog, rep)
+    rep.call(fillers.r09_3, prog, rep)
     rep.rule("R09.4", "time-of-day enumeration capacity vs. values admitted by the parser", 3)
-    fillers.r09_4(prog, rep)
+    rep.call(fillers.r09_4, prog, rep)
     rep.rule("R09.5", "divisions by a month length that can be 0 are guarded", 3)
-    fillers.r09_5(prog, rep)
+    rep.call(fillers.r09_5, prog, rep)
     if tier == "thorough":
         rep.rule("R09.6", "shift amounts of the fillers' masks stay below the word width", 8)
-        fillers.r09_6(prog, rep)
+        rep.call(fillers.r09_6, prog, rep)
 
 LEVEL_TEXT = ("Static verdict on necessary structural clauses of C09, for all inputs at once: every store through the occurrence-cache "
               "pointer in the seven fillers is dominated by index<capacity on all CFG paths (must-facts dataflow), callers honour the "
